@@ -445,6 +445,13 @@ func streamText(c *ctx) {
 			return a.ID == b.ID && a.LinkedProfileID == b.LinkedProfileID && dateEq(a.From, b.From) && dateEq(a.To, b.To) && weekdaysEq(a.Weekdays, b.Weekdays) && segmentsEq(a.Segments, b.Segments)
 		}))
 		task := types.Task{Task: tt, Door: r.U8(), From: card.From, To: card.To, Weekdays: wd, Start: hhmmFromTok(ht), Cards: r.U8()}
+		// "no date" (the zero value) is a value of the date fields too: it is written as "" and reads back as no date
+		if i%5 == 4 {
+			task.From = types.Date{}
+		}
+		if i%7 == 6 {
+			task.To = types.Date{}
+		}
 		emitRT("task", fmt.Sprintf("%d,%d,%s,%s,%d", tt, task.Door, strings.Join(wt, ""), ht, task.Cards), rt(task, func(a, b types.Task) bool {
 			return a.Task == b.Task && a.Door == b.Door && dateEq(a.From, b.From) && dateEq(a.To, b.To) && weekdaysEq(a.Weekdays, b.Weekdays) && a.Start.Equals(b.Start) && a.Cards == b.Cards
 		}))
